@@ -112,3 +112,63 @@ fn c17_queue_sequential() {
         kani::cover!(n == 1 && front == 1, "cover.queue.pop_to_empty");
     }
 }
+
+// ---- one environment step at the queue's only user-visible yield point: inside the predicate -------
+static mut INTERFERE: bool = false;
+static mut QPTR: usize = 0;
+static mut ENV_POPPED: Option<u8> = None;
+static mut PRED_LOG: [u8; 4] = [0; 4];
+static mut PRED_RES: [bool; 4] = [false; 4];
+static mut PRED_N: usize = 0;
+/// predicate during whose first evaluation ANOTHER consumer pops the head (the environment's step)
+fn pred_with_interference(x: &u8) -> bool {
+    unsafe {
+        let r = PRED_TABLE[(*x & 3) as usize];
+        if PRED_N < 4 { PRED_LOG[PRED_N] = *x; PRED_RES[PRED_N] = r; }
+        PRED_N += 1;
+        if INTERFERE {
+            INTERFERE = false;
+            let q = &*(QPTR as *const Queue<u8>);
+            let g = core::mem::ManuallyDrop::new(unprotected());
+            ENV_POPPED = q.try_pop(&g);
+        }
+        r
+    }
+}
+
+/// Backoff::spin only burns time (its `pause` intrinsic is not modelled by Kani).
+fn k_spin(_b: &Backoff) {}
+/// try_pop_if under interference: whatever it returns is an element the predicate was evaluated on
+/// and held for - also when another consumer removed the checked head in between.
+#[kani::proof]
+#[kani::stub(Guard::defer_destroy, k_retire)]
+#[kani::stub(crossbeam_utils::Backoff::spin, k_spin)]
+#[kani::unwind(6)]
+fn c17_pop_if_under_interference() {
+    unsafe {
+        let q = core::mem::ManuallyDrop::new(Queue::<u8>::new());
+        let g = core::mem::ManuallyDrop::new(unprotected());
+        let (a, b): (u8, u8) = (kani::any(), kani::any());
+        q.push(a, &g);
+        q.push(b, &g);
+        PRED_TABLE = [kani::any(), kani::any(), kani::any(), kani::any()];
+        QPTR = &*q as *const Queue<u8> as usize;
+        INTERFERE = kani::any();
+        let interfered = INTERFERE;
+        let r = q.try_pop_if(pred_with_interference, &g);
+        if let Some(x) = r {
+            // the predicate was evaluated on x itself, and answered true
+            let mut ok = false;
+            let mut i = 0;
+            while i < PRED_N && i < 4 { if PRED_LOG[i] == x && PRED_RES[i] { ok = true; } i += 1; }
+            assert!(ok, "C17.pop_if.removed_element_is_one_the_predicate_held_for");
+            assert!(ENV_POPPED != Some(x) || a == b, "C17.pop.element_popped_at_most_once");
+        }
+        if interfered {
+            assert!(ENV_POPPED == Some(a), "C17.pop.environment_consumer_gets_the_head_fifo");
+            assert!(r.is_none() || r == Some(b), "C17.pop_if.after_interference_only_the_new_head");
+        }
+        kani::cover!(interfered && r == Some(b) && a != b, "cover.pop_if.retry_on_new_head");
+        kani::cover!(interfered && r.is_none(), "cover.pop_if.new_head_fails_predicate");
+    }
+}
